@@ -20,7 +20,7 @@ SCN, X = CASES[PARAM % len(CASES)]
 
 @obligation(funcs=["storage.kv.WriterThread.run", "storage.kv.WriterThread._post_save", "storage.kv.WriterThread._delete_event",
                    "storage.kv.Index.write", "storage.kv.Index.clear"],
-            params=range(5), timeout=(400, 1800),
+            params=range(5), timeout=(500, 1800),
             bounds="store {e0}; the task 'add e1' (scenario by PARAM: regular, replacing e0, parameterised-replacing e0, kind-5 "
                    "deleting e0, ephemeral) runs with the engine failing at the k-th mutation, k symbolic 1..14 (quick tier: 7 positions for the replacing scenarios), followed by a "
                    "further task 'add e2' in the same writer loop; authors/timestamps symbolic, tags by selector (quick: <=1)")
